@@ -1,6 +1,9 @@
 mod check;
 mod corpus;
+mod e1;
+mod e1props;
 mod expander;
+mod proj;
 mod gen;
 mod names;
 mod render;
